@@ -148,7 +148,8 @@ def run_path(I, fn, decisions, time_limit):
     res = {'status': 'ok', 'msg': None}
     t0 = time.time()
     def on_alarm(sig, frm): raise BoundExceeded('path wall-time limit (%d s)' % time_limit)
-    signal.signal(signal.SIGALRM, on_alarm); signal.alarm(int(time_limit))
+    try: signal.signal(signal.SIGALRM, on_alarm); signal.alarm(int(time_limit))
+    except ValueError: pass     # not in the main thread (in-process debugging run)
     try:
         I.run(fn, [])
     except PathEnd: pass
@@ -167,7 +168,8 @@ def run_path(I, fn, decisions, time_limit):
     except RecursionError: res['status'] = 'bound'; res['msg'] = 'python recursion limit'
     except Exception as ex:
         res['status'] = 'internal'; res['msg'] = traceback.format_exc()[-3000:]; res['stack'] = list(I.stack[-8:])
-    signal.alarm(0)
+    try: signal.alarm(0)
+    except ValueError: pass
     res['decisions'] = list(I.decisions[:I.dpos]) if I.dpos <= len(I.decisions) else list(I.decisions)
     res['ndec'] = I.dpos
     res['results'] = I.results
